@@ -13,4 +13,12 @@ var Registry = map[string]func(args []int64){
 	"H_C12tok":  func(a []int64) { H_C12tok(int(a[0]), int(a[1])) },
 	"H_C13atok": func(a []int64) { H_C13atok(int(a[0]), int(a[1])) },
 	"H_Probe":   func(a []int64) { H_Probe(int(a[0])) },
+	"H_C08":     func(a []int64) { H_C08(int(a[0]), int(a[1])) },
+	"H_C08seed": func(a []int64) { H_C08seed(int(a[0]), int(a[1])) },
+	"H_C13b":    func(a []int64) { H_C13b(int(a[0]), int(a[1])) },
+	"H_C13seed": func(a []int64) { H_C13seed(int(a[0]), int(a[1])) },
+	"H_C10":     func(a []int64) { H_C10(int(a[0]), int(a[1])) },
+	"H_C10seed": func(a []int64) { H_C10seed(int(a[0]), int(a[1])) },
+	"H_C11":     func(a []int64) { H_C11(int(a[0]), int(a[1])) },
+	"H_C11seed": func(a []int64) { H_C11seed(int(a[0]), int(a[1])) },
 }
